@@ -13,6 +13,13 @@ package responder
 //                (never return a different value).  A call that neither fails nor answers is reported only after a 20 s
 //                watchdog, from a stable parked goroutine, together with the proof that the datagram was dropped by an encoder
 //                (the callback never saw the request / the responder logged that it could not build the answer).
+//   namecapacity the requester's packet conn across the whole (base-domain wire length × packet size) grid around the capacity of one
+//                name: every base-domain wire length 1, 3..200 (two label shapes each, incl. 63-byte labels) × packet sizes
+//                maxPacket-3 … maxPacket+3 (maxPacket from independent RFC 1035 arithmetic).  WriteTo's verdict must agree
+//                with what happens on the wire: accepted ⇒ exactly one query appears on the (tapped) transport and the
+//                responder's real responseFor returns the same bytes; refused ⇒ nothing is sent and the packet really does
+//                not fit.  "Never sent" is concluded from the send loop observed idle with an empty queue (stack scan), not
+//                from a bare timeout.
 //   concurrent   bursts of 4 / 16 / 32 requesters, each with its own socket and a unique payload, against one fresh responder:
 //                "prequeued" (all queries are in the responder's socket buffer before RecvAndRespond is started) and "barrier"
 //                (RecvAndRespond already running, the requesters released together).  The callback answers with a value derived
@@ -30,7 +37,9 @@ import (
 	"log"
 	mrand "math/rand"
 	"net"
+	"runtime"
 	"runtime/debug"
+	"sort"
 	"strings"
 	"sync"
 	"testing"
@@ -786,7 +795,7 @@ func TestVerifC15Exchange(t *testing.T) {
 		// which the requester must turn into an error)
 		step := 1
 		if di != 0 && !kit.Thorough() {
-			step = 9
+			step = 17
 		}
 		for n := 0; n <= 1400; n += step {
 			run(s, &rq, (20+n%50)%(capacity+1), n, "reused-requester")
@@ -798,7 +807,7 @@ func TestVerifC15Exchange(t *testing.T) {
 	t.Logf("sweep done after %v, calls that never returned: %d", time.Since(t0).Round(time.Millisecond), stuckN)
 	// seeded pairs
 	rqs := map[string]*requester.Requester{}
-	for i, n := 0, kit.Tier(1500, 120000); i < n; i++ {
+	for i, n := 0, kit.Tier(700, 120000); i < n; i++ {
 		s := servers[doms[rng.Intn(len(doms))]]
 		if rqs[s.dom] == nil || i%500 == 0 {
 			rqs[s.dom] = s.newRequester(t)
@@ -1232,4 +1241,226 @@ func TestVerifC15ExchangeConcurrent(t *testing.T) {
 			}
 		}
 	}
+}
+
+// ---- capacity grid: WriteTo's verdict against the wire ---------------------------------------------------------------------------
+
+// c15DomainOfWire builds a base domain whose wire encoding (length octets + labels + root octet) is exactly w octets.
+// shape 0: as few labels as possible (63-byte labels first); shape 1: seeded label lengths 1..20.
+func c15DomainOfWire(rng *mrand.Rand, w, shape int) dns.Name {
+	rest := w - 1 // octets for (length octet + label) pairs
+	var lens []int
+	for rest > 0 {
+		max := rest - 1
+		if max > 63 {
+			max = 63
+		}
+		l := max
+		if shape == 1 && max > 1 {
+			l = 1 + rng.Intn(max)
+			if l > 20 {
+				l = 1 + rng.Intn(20)
+			}
+		}
+		if rest-(1+l) == 1 { // would leave a lone length octet
+			if l > 1 {
+				l--
+			} else {
+				l++
+			}
+		}
+		lens = append(lens, l)
+		rest -= 1 + l
+	}
+	var labels [][]byte
+	for i, l := range lens {
+		b := make([]byte, l)
+		for j := range b {
+			b[j] = "abcdefghijklmnopqrstuvwxyz0123456789"[(i*7+j)%36]
+		}
+		labels = append(labels, b)
+	}
+	name, err := dns.NewName(labels)
+	if err != nil {
+		panic(fmt.Sprintf("driver bug: domain of wire length %d: %v", w, err))
+	}
+	if c15DomainWire(name) != w {
+		panic(fmt.Sprintf("driver bug: domain of wire length %d came out as %d", w, c15DomainWire(name)))
+	}
+	return name
+}
+
+// c15SendLoopsIdle reports whether every requester send loop of this process is parked waiting for a packet (and how many there
+// are).  Only one packet is in flight at a time in the grid test, so "all idle" means "ours is idle".
+func c15SendLoopsIdle() (bool, int) {
+	buf := make([]byte, 1<<20)
+	for {
+		k := runtime.Stack(buf, true)
+		if k < len(buf) {
+			buf = buf[:k]
+			break
+		}
+		buf = make([]byte, 2*len(buf))
+	}
+	n, idle := 0, true
+	for _, blk := range bytes.Split(buf, []byte("\n\n")) {
+		if !bytes.Contains(blk, []byte("requester.(*DNSPacketConn).sendLoop(")) {
+			continue // (the "created by ...NewDNSPacketConn.func2" line of a send loop does not match: no "sendLoop(" in it)
+		}
+		n++
+		if !bytes.HasPrefix(blk, []byte("goroutine ")) || !bytes.Contains(blk[:bytes.IndexByte(blk, '\n')+1], []byte("[chan receive")) {
+			idle = false
+		}
+	}
+	return idle, n
+}
+
+// c15GridWireLens: the root domain (1 octet) and every wire length a non-empty domain can have from 3 to 200 octets.
+func c15GridWireLens() []int {
+	out := []int{1}
+	for w := 3; w <= 200; w++ {
+		out = append(out, w)
+	}
+	return out
+}
+
+func TestVerifC15NameCapacityGrid(t *testing.T) {
+	log.SetOutput(c15Logs)
+	rec := kit.NewRec("C15", "namecapacity")
+	defer rec.Close()
+	rng := kit.Rand("c15namecapacity")
+
+	nConns := 0
+	if _, k := c15SendLoopsIdle(); k > 0 {
+		nConns = k // send loops left parked by earlier tests of this process
+	}
+	for _, w := range c15GridWireLens() {
+		for shape := 0; shape < 2; shape++ {
+			domain := c15DomainOfWire(rng, w, shape)
+			r := &Responder{domain: domain, maxUDPPayload: 1280 - 40 - 8}
+			conn := newC15CapConn()
+			pc := requester.NewDNSPacketConn(conn, c15PeerAddr, domain)
+			nConns++
+			maxPacket := -1
+			for c15FitsName(maxPacket+1, domain) {
+				maxPacket++
+			}
+			sizes := map[int]bool{}
+			for d := -3; d <= 3; d++ {
+				if maxPacket+d >= 0 {
+					sizes[maxPacket+d] = true
+				}
+			}
+			sizes[0] = true
+			sizes[rng.Intn(maxPacket+10)] = true
+			var order []int
+			for n := range sizes {
+				order = append(order, n)
+			}
+			sort.Ints(order)
+			for _, n := range order {
+				fits := c15FitsName(n, domain)
+				desc := fmt.Sprintf("domain-wire-len=%d shape=%d (%d labels) packet=%d max-packet-by-reference=%d fits=%v", w, shape, len(domain), n, maxPacket, fits)
+				rec.CaseCheap(desc)
+				rec.Count("evaluations", 1)
+				p := c15Payload(rng, n)
+				marks := c15Logs.marks()
+				var werr error
+				if pk, v, st := c15Try(func() { _, werr = pc.WriteTo(p, c15PeerAddr) }); pk {
+					rec.Violation("namecapacity:panic", "DNSPacketConn.WriteTo panicked", map[string]interface{}{"case": desc, "panic": fmt.Sprint(v), "stack": st})
+					continue
+				}
+				// wait for the query on the transport, or for the send loop to be idle again with nothing queued
+				var wire []byte
+				idle := false
+				deadline := time.Now().Add(c15Watchdog)
+				if werr != nil && len(pc.QueuePacketConn.OutgoingQueue(c15PeerAddr)) == 0 && len(conn.writes) == 0 {
+					// refused and nothing queued: the send loop (idle since the previous case) has nothing to take.  A query that
+					// appears nevertheless is caught by the per-domain check below.
+					idle = true
+				}
+				for wire == nil && !idle && time.Now().Before(deadline) {
+					wait := 2 * time.Millisecond
+					select {
+					case wire = <-conn.writes:
+					case <-time.After(wait):
+						if len(pc.QueuePacketConn.OutgoingQueue(c15PeerAddr)) == 0 {
+							if ok, k := c15SendLoopsIdle(); ok && k == nConns {
+								select { // the write may have landed between the two looks
+								case wire = <-conn.writes:
+								default:
+									idle = true
+								}
+							}
+						}
+					}
+				}
+				d := map[string]interface{}{"case": desc, "WriteTo_error": fmt.Sprint(werr), "query_on_the_wire": wire != nil, "send_loop_idle_and_queue_empty": idle,
+					"name_encoder_refusals_logged": c15Logs.since(marks, "send: "), "requester_log": c15Logs.last("send: ", 1)}
+				switch {
+				case wire == nil && !idle:
+					rec.Inconclusive("neither a query on the transport nor an idle send loop within the watchdog", d)
+				case werr == nil && wire == nil:
+					cls := "packet-beyond-one-name"
+					if fits {
+						cls = "packet-fits-one-name"
+					}
+					rec.Violation("namecapacity:accepted-by-WriteTo-but-never-sent:"+cls,
+						"WriteTo accepted the packet without an error, but no query was put on the transport (the send loop is idle again, its queue empty): the packet was dropped where the caller cannot see it", d)
+				case werr != nil && wire != nil:
+					rec.Violation("namecapacity:refused-by-WriteTo-but-sent", "WriteTo returned an error and yet a query was put on the transport", d)
+				case werr != nil && fits:
+					rec.Violation("namecapacity:refused-although-it-fits-one-name",
+						"WriteTo refused a packet whose base32 text in 63-byte labels plus the base domain fits the 255 octets of one name", d)
+				case werr != nil:
+					rec.Count("rejected", 1)
+					rec.Distinct("nontrivial", desc)
+				default:
+					var q dns.Message
+					var perr error
+					var got []byte
+					if pk, v, st := c15Try(func() {
+						q, perr = dns.MessageFromWireFormat(wire)
+						if perr == nil {
+							_, got = r.responseFor(&q, domain)
+						}
+					}); pk {
+						rec.Violation("namecapacity:decoder-panic-on-own-encoding", "the responder side panicked on a query the requester produced", map[string]interface{}{"case": desc, "panic": fmt.Sprint(v), "stack": st})
+						continue
+					}
+					if perr != nil || !bytes.Equal(got, p) {
+						d["parse_error"] = fmt.Sprint(perr)
+						d["got_len"] = len(got)
+						rec.Violation("namecapacity:roundtrip-mismatch", "the responder side does not recover the packet from the query the requester sent", d)
+						continue
+					}
+					if !fits {
+						rec.Note("carried although the reference arithmetic says it cannot fit: " + desc)
+					}
+					rec.Count("accepted_roundtrips", 1)
+					if n > 0 {
+						rec.Distinct("nontrivial", desc)
+					}
+					if n == maxPacket {
+						rec.Distinct("domain_wire_lengths_carried_at_capacity", w)
+						if rec.WantSample() && (w == 60 || w == 126 || w == 190) {
+							rec.Sample(map[string]interface{}{"case": desc, "qname_wire_len": c15DomainWire(q.Question[0].Name), "decoded_equal": true})
+						}
+					}
+				}
+			}
+			// per domain: once the send loop is idle again no query may be left over from a refused packet
+			for end := time.Now().Add(c15Watchdog); time.Now().Before(end); time.Sleep(200 * time.Microsecond) {
+				if ok, k := c15SendLoopsIdle(); ok && k == nConns && len(pc.QueuePacketConn.OutgoingQueue(c15PeerAddr)) == 0 {
+					break
+				}
+			}
+			if len(conn.writes) > 0 {
+				rec.Violation("namecapacity:refused-by-WriteTo-but-sent", "a query was put on the transport for a packet that WriteTo had refused",
+					map[string]interface{}{"case": fmt.Sprintf("domain-wire-len=%d shape=%d", w, shape), "stray_queries": len(conn.writes)})
+			}
+			close(conn.closed) // lets recvLoop return; the send loop stays parked (counted in nConns)
+		}
+	}
+	rec.Exhaustive("every base-domain wire length 1, 3..200 × 2 label shapes × packet sizes maxPacket-3..maxPacket+3")
 }
